@@ -200,7 +200,7 @@ def run_scripts(res, tmp, seed, count, idx, n):
                 ref_emit.run_real(self, self.script)
 
     out = os.path.join(tmp, 'scripts')
-    for si in range(idx, count, n):
+    for si in common.case_range(idx, count, n, res):
         rnd = random.Random(common.case_seed(PROPERTY, seed, si, 'script'))
         ops = ref_emit.random_script(rnd)
         be = ScriptBackend(out, [])
@@ -251,7 +251,7 @@ def _text_class(o):
 def run_manifests(res, tmp, seed, specs, idx, n):
     from stone.frontend.frontend import specs_to_ir
     from stone.compiler import BackendException
-    for ci in range(idx, specs, n):
+    for ci in common.case_range(idx, specs, n, res):
         cs = common.case_seed(PROPERTY, seed, ci)
         m = gm.generate(cs, gm.make_profile(cfg_style='dropbox' if ci % 2 else None,
                                             route_arg_kinds=('struct', 'union', 'void')))
